@@ -14,6 +14,7 @@ CURVE = "obj:paranoid_crypto/lib/ec_util.py::EcCurve"
 
 @contract(f"{E}::EcCurve.BatchMultiplyG")
 class BatchMultiplyG:
+  frame_props = ["C02", "C11", "C17"]
   params = {"scalars": "list[int]"}
   self_fields = {"a": "int", "b": "int", "mod": "int", "n": "int", "h": "int", "g": "tuple[int,int]"}
   returns = "list[point]"
@@ -26,6 +27,7 @@ class BatchMultiplyG:
 
 @contract(f"{D}::_MapIssuerSigIndexes")
 class MapIssuerSigIndexes:
+  frame_props = ["C02", "C17"]
   params = {"sigs": "list[ref:ECDSASignature]"}
   returns = "ref:PointMap"
   assumed = True
